@@ -40,7 +40,7 @@ PROPS['C01']={
  ]}
 
 PROPS['C06']={
- 'bounds_statement':'in_toto_verify from MIR with the clock as a symbolic instant: expiry and verification instants are unconstrained 64+32-bit vectors; top level and one level of delegation; and a second verification in the same process at a later instant (state that outlives a call, e.g. a cached clock reading, is visible to it).',
+ 'bounds_statement':'in_toto_verify from MIR with the clock as a symbolic instant: expiry and verification instants are unconstrained 64+32-bit vectors; top level and one level of delegation; and a second verification in the same process at a later instant (state that outlives a call, e.g. a cached clock reading, is visible to it); and layouts produced by the crate\'s own construction paths (LayoutMetadata::new, LayoutMetadataBuilder, the decoder on a document whose expiry text has a free offset and free fractional seconds), where the expiry that counts is the one the caller / the document states.',
  'assumptions':PIPE_ASSUME+['chrono::DateTime<Utc> ordering = lexicographic (seconds, nanoseconds)','chrono text parsing/printing modelled on ghost strings: parse_from_rfc3339(text(local,offset)) = (local - offset, offset); with_timezone(Utc) keeps the instant; naive_local = instant + offset; to_rfc3339_opts(Secs) truncates to whole seconds; validated natively on sampled instants/offsets'],
  'obligations':[
    {'name':'expiry_top','module':'harness.C06','cls':'Expiry','quick':{},'thorough':{},'validate':{'quick':2,'thorough':2}},
@@ -58,7 +58,7 @@ PROPS['C07']={
                 {'name':'agreement_3links_small','module':'harness.C07','cls':'Agreement','quick':{'nlinks':3,'small':True},'thorough':{'nlinks':4,'small':True}}]}
 
 PROPS['C13']={
- 'bounds_statement':'self-composition of in_toto_verify from MIR (reference run in insertion order vs. every permutation of every hash map) over 1-2 steps with 2-3 links per step that may differ, any u32 thresholds, free signature validity; plus the rule engine on two-algorithm digest tables under every HashMap iteration order (its verdict must equal the order-free reference model).',
+ 'bounds_statement':'self-composition of in_toto_verify from MIR (reference run in insertion order vs. every permutation of every hash map) over 1-2 steps with 2-3 links per step that may differ, any u32 thresholds, free signature validity; plus the rule engine on two-algorithm digest tables under every HashMap iteration order (its verdict must equal the order-free reference model); links that report different artifact SETS; one key material known under two identifiers; and histories: the verdict on B after another verification, and after 1..40 (thorough 150) failed verifications of four kinds, equals the verdict in a fresh process.',
  'assumptions':PIPE_ASSUME+['directory enumeration order is not varied (glob returns paths sorted; stated, not checked)'],
  'obligations':[{'name':'determinism','module':'harness.C13','cls':'Determinism','quick':{'nlinks':2},'thorough':{'nlinks':3}},
                 {'name':'determinism_3links','module':'harness.C13','cls':'Determinism','quick':{'nlinks':3,'all_valid':True,'rate':400},'thorough':{'nlinks':3,'all_valid':True,'rate':400}},
@@ -70,14 +70,14 @@ PROPS['C13']={
                 {'name':'rule_engine_digest_tables','module':'harness.C03','cls':'Rules','quick':{'group':'algs','rate':4},'thorough':{'group':'algs','rate':2}}]}
 
 PROPS['C15']={
- 'bounds_statement':'in_toto_verify from MIR with the recursive call executed for real (depth 2): sub-layout filed under an authorized / unauthorized key, 1-2 sub-layout signatures with free validity, expired or not, inner links present/absent in the dedicated sub-directory with free validity, decoys in the parent directory; summary compared field by field; and a step with two functionaries filing the same sub-layout, each copy checked against its own sub-directory.',
+ 'bounds_statement':'in_toto_verify from MIR with the recursive call executed for real (depth 2): sub-layout filed under an authorized / unauthorized key, 1-2 sub-layout signatures with free validity, expired or not, inner links present/absent in the dedicated sub-directory with free validity, decoys in the parent directory; summary compared field by field; and a step with two functionaries filing the same sub-layout, each copy checked against its own sub-directory; decoy links in the parent directory, in a sibling-looking directory and in a directory whose name extends the dedicated one; and one layout document verified both as a top-level layout and as a sub-layout (sound, or with one of 7 defects): the verdicts agree.',
  'assumptions':PIPE_ASSUME,
  'obligations':[{'name':'sublayout','module':'harness.C15','cls':'Sublayout','quick':{'inner_steps':3},'thorough':{'inner_steps':3}},
                 {'name':'two_functionaries','module':'harness.C15','cls':'SublayoutTwoFunctionaries','quick':{},'thorough':{}},
                 {'name':'as_strict_as_top_level','module':'harness.C15','cls':'SublayoutAsStrictAsTopLevel','quick':{},'thorough':{}}]}
 
 PROPS['C08']={
- 'bounds_statement':'in_toto_verify from MIR with a ghost event log behind the two side-effecting calls (in_toto_run, fs::write): every combination of stage failures (owner signature, expiry, missing / badly signed link, failing step rule) x inspection outcomes (spawn error, any i32 exit status, products, inspection rules) within the shape bound.',
+ 'bounds_statement':'in_toto_verify from MIR with a ghost event log behind the two side-effecting calls (in_toto_run, fs::write): every combination of stage failures (owner signature, expiry, missing / badly signed link, failing step rule) x inspection outcomes (spawn error, any i32 exit status, products, inspection rules) within the shape bound; also after an earlier verification of the same process failed inside a sub-layout, and with two inspections sharing one name.',
  'assumptions':PIPE_ASSUME+['the inspection subprocess and the files it touches are outside the claim; the stub returns what runlib documents: Err or a link with Some(exit status)'],
  'obligations':[{'name':'inspections','module':'harness.C08','cls':'Inspections','quick':{'ninsp':1},'thorough':{'ninsp':2}},
                 {'name':'inspections_after_two_steps','module':'harness.C08','cls':'Inspections','quick':{'ninsp':1,'two_steps':True},'thorough':{'ninsp':2,'two_steps':True}},
@@ -88,7 +88,7 @@ PROPS['C08']={
 UNIT_ASSUME=['std/dependency calls replaced by the listed models (coverage.trusted_base); every run replays sampled paths natively against the real crate and compares outcomes',
              'dev-profile arithmetic (overflow checks on): an overflow is a panic; the release profile wraps instead']
 PROPS['C20']={
- 'bounds_statement':'PaeV1::pae_pack / pae_unpack / consume_load_len from MIR: every type string (<= 3 bytes) and payload (<= 4 bytes) for the round trip; two independent pairs for injectivity; every input of "DSSEv1 " + <= 8 bytes, every <= 8-byte input without the prefix, and inputs whose length field is usize::MAX, for totality of decoding.',
+ 'bounds_statement':'PaeV1::pae_pack / pae_unpack / consume_load_len from MIR: every type string (<= 3 bytes) and payload (<= 4 bytes) for the round trip, plus lengths 9, 10, 11, 99, 100, 101 (thorough: up to 10000) with two free bytes each; two independent pairs for injectivity; every input of "DSSEv1 " + <= 8 bytes, every <= 8-byte input without the prefix, and inputs whose length field is usize::MAX, for totality of decoding.',
  'assumptions':UNIT_ASSUME+['format!/Display of usize and str modelled precisely from the format_args! byte-code; str::parse::<usize> modelled (optional +, digits, overflow)'],
  'obligations':[
   {'name':'roundtrip','module':'harness.C20','cls':'RoundTrip','quick':{'max_t':3,'max_p':4},'thorough':{'max_t':5,'max_p':6}},
@@ -180,10 +180,11 @@ MO_TYPES=['link','metablock_link','layout','pubkey','byproducts','statement_link
 PROPS['C17']['obligations']+=[{'name':'member_order_'+w,'module':'harness.C14','cls':'MemberOrder','quick':{'what':w},'thorough':{'what':w},'validate':{'quick':8,'thorough':24},
    **({'tier_only':'thorough'} if w in ('layout','statement_slsa1','predicate_slsa1','step') else {})} for w in MO_TYPES]
 PROPS['C17']['bounds_statement']+='  Member order: one object of a valid document written with its members reversed / rotated / with one member doubled into two members whose keys differ in one free byte; the text channels see the document order, the tree channel the key order of serde_json::Map; they must agree.'
+PROPS['C17']['bounds_statement']+='  White space: MetadataWrapper::try_from_bytes from MIR on eight white-space spellings of one document (through the serde_json text-layer model).  The crate-level entry points (Json::from_reader / from_slice / deserialize) on valid documents, documents with a member missing, with trailing bytes, and with a member written twice.'
 PROPS['C17']['bounds_statement']+='  Also documents that are NOT the output of the serialiser: every single-node mutation of a valid document of each type (see C14 decode obligations) must be accepted or rejected alike on all four channels and decode to equal values.'
 PROPS['C16']={
  'bounds_statement':'same pipeline as C17, asserting serialise -> parse = identity (value equality through the crate\'s own PartialEq-equivalent structure) for every wire type incl. every rule form with keyword-like operands (IN, WITH, FROM, MATCH, trailing-slash prefixes), optional fields present/absent, empty collections, key table self-consistency; byte-identical re-serialisation follows from value equality because serialisation is a function of the value.',
- 'assumptions':WIRE_ASSUME+['Unicode beyond ASCII in free strings is covered by fixed samples only; pretty printing is serde_json\'s'],
+ 'assumptions':WIRE_ASSUME+['Unicode beyond ASCII in free strings is covered by fixed samples only; the text writers (to_writer / to_writer_pretty / to_vec) are models: a Value argument is a key-ordered tree, any other value is written in the order its Serialize impl emits'],
  'obligations':[{'name':w,'module':'harness.wire','cls':'RoundTrip','quick':{'what':w,'prop':'C16','nbytes':1,'rate':WIRE_RATE.get(w,10)},'thorough':{'what':w,'prop':'C16','nbytes':2,'rate':WIRE_RATE.get(w,10)},'validate':{'quick':6,'thorough':24}} for w in WIRE_TYPES_Q]}
 
 PROPS['C16']['obligations']+=[{'name':'writers_deterministic','module':'harness.wire','cls':'WritersDeterministic','quick':{},'thorough':{},'validate':{'quick':2,'thorough':2}}]
@@ -200,8 +201,8 @@ PROPS['C19']={
  ]}
 
 PROPS['C18']={
- 'bounds_statement':'decidable part only: record_artifacts / record_artifact / dir_entry_to_path / apply_left_strip / calculate_hashes / in_toto_run from MIR over a ghost file system (2-3 regular files with free contents, optionally a symbolic link to a file with a relative / absolute / dot-dot target or a chain of two links, 1-2 path arguments, four strip-prefix lists, four algorithm lists, every chunking of every read, one optional read failure): exactly one entry per regular file keyed by the path minus the longest strip prefix, digests computed over exactly the file bytes once and in order, duplicate keys and unknown algorithms are errors; in_toto_run records materials before and products after the command and builds the link from exactly those results.',
- 'assumptions':UNIT_ASSUME+['NOT decided (system calls / FFI, no encoding within reach): the real directory walk (walkdir), symbolic links to directories and link cycles, true SHA-2 digests (ring), the subprocess; the ghost walker yields directories before their entries and entries in name order',
+ 'bounds_statement':'decidable part only: record_artifacts / record_artifact / dir_entry_to_path / apply_left_strip / calculate_hashes / in_toto_run from MIR over a ghost file system (2-3 regular files with free contents, optionally a symbolic link to a file with a relative / absolute / dot-dot target or a chain of two links; in a second obligation links to DIRECTORIES (relative, through .., absolute, cycles, dangling) with non-normalised path arguments over a ghost model of walkdir; in_toto_run on a tree that the (ghost) command changes, with free modification times; 1-2 path arguments, four strip-prefix lists, four algorithm lists, every chunking of every read, one optional read failure): exactly one entry per regular file keyed by the path minus the longest strip prefix, digests computed over exactly the file bytes once and in order, duplicate keys and unknown algorithms are errors; in_toto_run records materials before and products after the command and builds the link from exactly those results.',
+ 'assumptions':UNIT_ASSUME+['NOT decided (system calls / FFI, no encoding within reach): the real directory walk (walkdir is replaced by a ghost model: entries in name order, loop and I/O errors as documented; validated natively on every run), the real directory order, true SHA-2 digests (ring), the subprocess; the ghost walker yields directories before their entries and entries in name order',
                             'ring::digest modelled as an injective function of exactly the bytes fed (concrete inputs use the real SHA-2)'],
  'obligations':[
    {'name':'apply_left_strip','module':'harness.C18','cls':'LeftStrip','quick':{'plen':3,'nprefix':2},'thorough':{'plen':4,'nprefix':3}},
